@@ -395,10 +395,7 @@ pub fn replay(r: &Value) -> bool {
             &mut rep,
         );
         println!("reference verdict: {:?}", out);
-        for v in &rep.violations {
-            println!("{}: {}", v.signature, v.detail);
-        }
-        rep.violations.is_empty()
+        crate::util::print_replay(&rep)
     }
     match r["variant"].as_str().unwrap_or("") {
         "falcon512" => go::<F512>(r),
